@@ -139,11 +139,8 @@ def guard_rule(ctx, R, rule, q, exc, ref_table, del_table, label,
                      for cs in ctx.cg.calls_in(c) if f in cs.callees]
             if len(sites) == 1 and keys:
                 call = sites[0].node
-                params = [p for p in f.params if p not in ('self', 'cls')]
-                bound = {}
-                for i, a in enumerate(call.args):
-                    if i < len(params):
-                        bound[params[i]] = a
+                # positional or keyword binding alike
+                bound = {k: C.arg_for_param(call, f, k) for k in keys}
                 objs = set()
                 for k in keys:
                     a = bound.get(k)
@@ -247,7 +244,7 @@ def r82(ctx, R):
              node=gd)
         key = f.params[1] if len(f.params) > 1 else None
         R.ob('R8.2', 'provider-delete:guard-key:%s' % ref,
-             val is not None and key in C.names_in(val),
+             val is not None and key in _params_in(f, val),
              'the guard is keyed by the provider being deleted',
              src(val)[:70] if val is not None else None, func=f, node=gd,
              nontrivial=False)
